@@ -2,7 +2,10 @@
 package document
 
 import (
+	"bytes"
 	"encoding/xml"
+	"io"
+	"strings"
 )
 
 // OfficeMath 表示Office数学公式元素
@@ -88,6 +91,10 @@ func (d *Document) AddMathFormula(latex string, isBlock bool) *MathParagraph {
 		Runs: []Run{},
 	}
 
+	// RawXML 会原样写入 document.xml：只有格式良好的OMML片段才能原样保留，
+	// 其他内容（未转换的LaTeX文本、含 < & 或控制字符的字符串）作为公式文本转义后写入
+	latex = safeMathXML(latex)
+
 	// 创建公式内容
 	// 注意：这里使用RawXML来存储公式内容，因为OMML结构复杂
 	// 实际的LaTeX到OMML转换由markdown包的LaTeXToOMML函数完成
@@ -108,6 +115,88 @@ func (d *Document) AddMathFormula(latex string, isBlock bool) *MathParagraph {
 
 	d.Body.Elements = append(d.Body.Elements, mp)
 	return mp
+}
+
+// safeMathXML 返回可以安全地作为 m:oMath 内部XML写入的内容。
+// 格式良好的XML片段（标签配对、前缀已声明、字符合法）原样返回；
+// 否则把整个字符串当作公式中的文本：转义后放入 m:r/m:t，非法字符由 xml.EscapeText 替换为 U+FFFD。
+func safeMathXML(content string) string {
+	if isWellFormedMathFragment(content) {
+		return content
+	}
+	var buf bytes.Buffer
+	_ = xml.EscapeText(&buf, []byte(content))
+	return "<m:r><m:t xml:space=\"preserve\">" + buf.String() + "</m:t></m:r>"
+}
+
+// isWellFormedMathFragment 检查内容放入 document.xml 的 m:oMath 元素后文档是否仍然格式良好
+func isWellFormedMathFragment(content string) bool {
+	// 根元素上声明了 document.xml 中可用的全部前缀
+	const open = `<m:oMath xmlns:m="m" xmlns:w="w" xmlns:w15="w15" xmlns:wp="wp" xmlns:a="a" xmlns:pic="pic" xmlns:r="r">`
+	dec := xml.NewDecoder(strings.NewReader(open + content + "</m:oMath>"))
+	dec.Strict = true
+	declared := []map[string]bool{{"xml": true}}
+	known := func(prefix string) bool {
+		if prefix == "" {
+			return true
+		}
+		for _, scope := range declared {
+			if scope[prefix] {
+				return true
+			}
+		}
+		return false
+	}
+	var stack []xml.Name
+	roots := 0
+	for {
+		tok, err := dec.RawToken()
+		if err == io.EOF {
+			return len(stack) == 0 && roots == 1
+		}
+		if err != nil {
+			return false
+		}
+		switch t := tok.(type) {
+		case xml.StartElement:
+			if len(stack) == 0 {
+				roots++
+			}
+			scope := map[string]bool{}
+			seen := map[xml.Name]bool{}
+			for _, attr := range t.Attr {
+				if seen[attr.Name] {
+					return false
+				}
+				seen[attr.Name] = true
+				if attr.Name.Space == "xmlns" {
+					scope[attr.Name.Local] = true
+				}
+			}
+			declared = append(declared, scope)
+			if !known(t.Name.Space) {
+				return false
+			}
+			for _, attr := range t.Attr {
+				if attr.Name.Space != "xmlns" && !known(attr.Name.Space) {
+					return false
+				}
+			}
+			stack = append(stack, t.Name)
+		case xml.EndElement:
+			if len(stack) == 0 || stack[len(stack)-1] != t.Name {
+				return false
+			}
+			stack = stack[:len(stack)-1]
+			declared = declared[:len(declared)-1]
+		case xml.CharData:
+			if len(stack) == 0 && strings.TrimSpace(string(t)) != "" {
+				return false
+			}
+		case xml.ProcInst, xml.Directive:
+			return false
+		}
+	}
 }
 
 // AddInlineMathFormula 向段落中添加行内数学公式
